@@ -104,3 +104,9 @@ func AlgebraDomain() bool { return true }
 
 // Last returns the most recently created symbolic string variable of that name.
 func Last(name string) string { return "" }
+
+// AssumeLen assumes len(s) == n and lets the engine use the fact syntactically.
+func AssumeLen(s string, n int) {}
+
+// ReaderDrain returns what an io.Reader known to the engine still holds and consumes it.
+func ReaderDrain(r any) []byte { return nil }
